@@ -328,6 +328,13 @@ func (fi *FileInfo) checkObjects() error {
 			// than marked broken.  makeSafeGetInt bounds recursion and detects
 			// cycles, so this stays safe on malformed input.
 			x, endPos, err := fi.doRead(objInfo, fi.makeSafeGetInt(), false)
+			if err == io.EOF || err == io.ErrUnexpectedEOF {
+				// the file ends inside this object (e.g. right after "N G obj",
+				// or after the value but before "endobj"): the object is
+				// incomplete, the objects before it are still good
+				objInfo.Broken = true
+				continue
+			}
 			if err != nil {
 				if IsMalformed(err) {
 					objInfo.Broken = true
